@@ -68,6 +68,7 @@ def _dd_ensures(C, res):
                    z3.And(dist(res[k]) <= dist(X[x]), z3.Implies(x < srcf(k), dist(res[k]) < dist(X[x])))),
                    [MP(res.raw(k).t, X.raw(x).t)]))]
         C._e.last_dedupe = dict(src=srcf, rep=repf)
+        C._e.dedupe_log.append(C._e.last_dedupe)
     return cl
 
 
@@ -93,7 +94,14 @@ def _d2_ensures(C, res):
     rid = lambda p: p.reference.siteId
     qid = lambda p: p.query.siteId
     member = z3.Function(fresh_name('d2_src'), z3.IntSort(), z3.IntSort())
-    cl = [('reference_labels_strictly_increasing', forall([k, k2], z3.Implies(z3.And(0 <= k, k < k2, k2 < res.len), rid(res[k]) < rid(res[k2])),
+    if C.has('F'):
+        d1, d2 = C._e.dedupe_log[-2], C._e.dedupe_log[-1]
+        memb = lambda k: d1['src'](d2['src'](k))
+    else:
+        memb = lambda k: member(k)
+    cl = [('every_kept_pair_is_a_candidate', forall(k, z3.Implies(rng(0, k, res.len), z3.And(0 <= memb(k), memb(k) < X.len, res.raw(k).t == X.raw(memb(k)).t)),
+                                                    [res.raw(k).t])),
+          ('reference_labels_strictly_increasing', forall([k, k2], z3.Implies(z3.And(0 <= k, k < k2, k2 < res.len), rid(res[k]) < rid(res[k2])),
                                                           [MP(res.raw(k).t, res.raw(k2).t)])),
           ('query_labels_pairwise_distinct', forall([k, k2], z3.Implies(z3.And(0 <= k, k < k2, k2 < res.len), qid(res[k]) != qid(res[k2])),
                                                     [MP(res.raw(k).t, res.raw(k2).t)])),
